@@ -1,4 +1,4 @@
-CONSTANTS LOCSYMSIGHT = 3 PopVIntoConstant = TRUE NamedTmpByLastGlobal = TRUE EmptyMacroPopsOuter = TRUE
+CONSTANTS LOCSYMSIGHT = 3
           MaxLen = 40 FreeLen = 20 MaxDepth = 4 Mode = "all" CaseModes = {TRUE, FALSE} EveryState = FALSE
 INIT Init
 NEXT SimNext
